@@ -42,18 +42,24 @@ def run(chk, repo):
     sym = S + ".update"
     f = repo.func(sym)
     chk.analysed(sym)
-    top = body_without_docstring(f)
+    ftop = body_without_docstring(f)
+    # canonical shape (E0): `if self.connected: <cycle> else: <handshake>`
+    split = [s for s in ftop if isinstance(s, ast.If) and match(
+        "self.connected", s.test) is not None and s.orelse]
+    need(len(split) == 1, f"{sym}: connected / not connected split not "
+                          f"found")
+    top = split[0].body          # the connected cycle
     ifs = [s for s in top if isinstance(s, ast.If)]
-    init = [s for s in ifs if match("not self.connected", s.test) is not None]
-    need(len(init) == 1, f"{sym}: init branch not found")
-    ib = init[0]
+    ibl = split[0].orelse        # the handshake
     # ---------------------------------------------------------- R28.3
-    ok = isinstance(ib.body[-1], ast.Return)
+    ok = ftop.index(split[0]) == len(ftop) - 1
     chk.ob("R28.3", sym, "nothing but the init handshake runs before the "
-           "connection is up", ok, ib, "the not-connected branch returns")
-    acc = [s for s in ib.body if isinstance(s, ast.If) and match(
+           "connection is up", ok, split[0], "the cycle is the other branch "
+           "of the connected test, nothing follows the test")
+    acc = [s for s in ibl if isinstance(s, ast.If) and match(
         "self.init_accept", s.test) is not None]
-    need(len(acc) == 1, f"{sym}: handshake completion not found")
+    need(len(acc) == 1 and len(ibl) == 1,
+         f"{sym}: handshake completion not found")
     done = acc[0].body
     for attr, src in (("last_transmit_accept", "transmit_accept"),
                       ("last_receive_request", "receive_request")):
@@ -75,7 +81,7 @@ def run(chk, repo):
                        for s in acc[0].orelse)
     chk.ob("R28.3", sym, "init is requested until accepted", ok, acc[0],
            "init_request stays set until init_accept, then connected")
-    ok = match_stmt("self.init_request = False", top[0]) is not None
+    ok = match_stmt("self.init_request = False", ftop[0]) is not None
     chk.ob("R28.3", sym, "the init request is withdrawn otherwise", ok, f,
            "first statement")
     # ---------------------------------------------------------- R28.1 rx
@@ -83,11 +89,11 @@ def run(chk, repo):
     # on the CFG, each path to the exit passes the init branch's return or
     # a store to last_receive_request
     cfg = CFG(f)
-    init_ids = {id(x) for x in ast.walk(ib)}
+    init_ids = {id(x) for b_ in ibl for x in ast.walk(b_)}
     latch = [n for n in cfg.nodes if n.kind == "stmt" and isinstance(
         n.stmt, ast.Assign) and id(n.stmt) not in init_ids and any(
             is_self_attr(t, "last_receive_request") for t in n.stmt.targets)]
-    init_rets = [n for n in cfg.nodes if n.kind == "return"
+    init_rets = [n for n in cfg.nodes if n.stmt is not None
                  and id(n.stmt) in init_ids]
     okl = bool(latch) and cfg.must_pass(
         cfg.entry, lambda n: n in latch or n in init_rets,
